@@ -262,6 +262,7 @@ class Scenario:
                 # HTTP instances with a weight of their own keep heart-beating through every node in turn (so at least two
                 # of three beats of an instance reach a node that is not responsible for its service and are routed):
                 # heart-beats are not changes - whichever node is asked in between returns the registered weight
+                self.open_clients([1, 2, 3])     # (connections without registrations: the trace's first record)
                 self.hreg(1, "h1", weight=3.0)
                 self.hreg(2, "h2", weight=2.0)
                 self.hreg(3, "h3", weight=3.0)
